@@ -343,6 +343,17 @@ func main() {
 
 	if r.Replay != "" {
 		rf := ev.LoadReplay(r.Replay)
+		if rf.Sub == "nested-replacement" {
+			var nc NestedCase
+			ev.MustJSON(rf.Case, &nc)
+			vs, oc := runNested(nc)
+			fmt.Printf("replay case=%+v\n  outcome=%s\n", nc, oc)
+			for _, v := range vs {
+				fmt.Printf("  %s: %s\n", v.sig, v.msg)
+				r.Violate(ev.Violation{Signature: v.sig, Sub: rf.Sub, Message: v.msg, Case: nc})
+			}
+			r.Finish()
+		}
 		var c Case
 		ev.MustJSON(rf.Case, &c)
 		res := runCase(c)
@@ -447,7 +458,7 @@ func main() {
 
 		type acc struct {
 			evals, nontriv, stitched int64
-			outcomes                map[string]struct{}
+			outcomes                 map[string]struct{}
 		}
 		var mu sync.Mutex
 		total := acc{outcomes: map[string]struct{}{}}
@@ -534,6 +545,7 @@ func main() {
 			r.Note("plain outcome classes: " + strings.Join(cl, "; "))
 		}
 	}
+	nestedReplacement(r)
 	r.Finish()
 }
 
